@@ -5,7 +5,7 @@
    Only statements; every proof is `exact <lemma>`. *)
 From Coq Require Import List ZArith QArith Qcanon Bool Arith.
 From Dimod Require Import Base.Util Model.Poly Model.Comb Gen.Gen_Gates Model.Gates
-  Proofs.GatesFacts Props.Comb Gen.Gen_Combinations Proofs.CombRule Gen.Gen_Graph Proofs.GraphConstants Model.Knap Proofs.KnapFacts Model.MultCircuit Proofs.MultFacts Proofs.MultArith Proofs.MultAttain Proofs.MultAll Model.Qap Proofs.QapFacts Model.Magic Proofs.MagicFacts Model.Sat Proofs.SatFacts.
+  Proofs.GatesFacts Props.Comb Gen.Gen_Combinations Proofs.CombRule Gen.Gen_Graph Proofs.GraphConstants Model.Knap Proofs.KnapFacts Model.QKnap Gen.Gen_Knap Proofs.KnapGen Model.MultCircuit Proofs.MultFacts Proofs.MultArith Proofs.MultAttain Proofs.MultAll Model.Qap Proofs.QapFacts Model.Magic Proofs.MagicFacts Model.Sat Proofs.SatFacts Gen.Gen_Sat Proofs.SatGen.
 Import ListNotations.
 
 (* energy 0 on exactly the rows of the truth table, >= 1 on every other row (strength 1) *)
@@ -174,6 +174,55 @@ Theorem C17_bin_packing_feasible_bool :
 Proof. exact bp_feasible_bool. Qed.
 Print Assumptions C17_bin_packing_feasible_bool.
 
+(* the constructions TRANSLATED statement by statement from the source (translators/knap_constructions.py ->
+   Gen/Gen_Knap.v) are these models; the generators reject values / weights of different shapes *)
+Theorem C17_gen_knapsack_is_model :
+  forall values weights capacity,
+    length weights = length values -> gen_knapsack values weights capacity = knapsack_model values weights capacity.
+Proof. exact gen_knapsack_is_model. Qed.
+Print Assumptions C17_gen_knapsack_is_model.
+
+Theorem C17_gen_multi_knapsack_is_model :
+  forall values weights capacities,
+    length weights = length values -> gen_multi_knapsack values weights capacities = mk_model values weights capacities.
+Proof. exact gen_multi_knapsack_is_model. Qed.
+Print Assumptions C17_gen_multi_knapsack_is_model.
+
+Theorem C17_gen_bin_packing_is_model :
+  forall weights capacity, gen_bin_packing weights capacity = bp_model weights capacity.
+Proof. exact gen_bin_packing_is_model. Qed.
+Print Assumptions C17_gen_bin_packing_is_model.
+
+(* quadratic_knapsack / quadratic_multi_knapsack, stated on the translated constructions themselves *)
+Theorem C17_quadratic_knapsack_objective :
+  forall values weights profits capacity (x : sample),
+    energy (q_obj (gen_quadratic_knapsack values weights profits capacity)) x
+    = (- ks_value values (length values) x - pair_profit profits x)%Qc.
+Proof. exact gen_quadratic_knapsack_objective. Qed.
+Print Assumptions C17_quadratic_knapsack_objective.
+
+Theorem C17_quadratic_knapsack_feasible :
+  forall values weights profits capacity (x : sample),
+    feasibleb (gen_quadratic_knapsack values weights profits capacity) x = true
+    <-> (ks_weight weights (length weights) x <= capacity)%Qc.
+Proof. exact gen_quadratic_knapsack_feasible. Qed.
+Print Assumptions C17_quadratic_knapsack_feasible.
+
+Theorem C17_quadratic_multi_knapsack_objective :
+  forall values weights profits capacities (x : sample),
+    energy (q_obj (gen_quadratic_multi_knapsack values weights profits capacities)) x
+    = (energy (q_obj (gen_multi_knapsack values weights capacities)) x
+       - pair_profit_multi profits (length capacities) x)%Qc.
+Proof. exact gen_quadratic_multi_knapsack_objective. Qed.
+Print Assumptions C17_quadratic_multi_knapsack_objective.
+
+Theorem C17_quadratic_multi_knapsack_constraints :
+  forall values weights profits capacities,
+    q_cons (gen_quadratic_multi_knapsack values weights profits capacities)
+    = q_cons (gen_multi_knapsack values weights capacities).
+Proof. exact gen_quadratic_multi_knapsack_constraints. Qed.
+Print Assumptions C17_quadratic_multi_knapsack_constraints.
+
 (* on 0/1 assignments "the row sums to 1" is "exactly one entry is 1" *)
 Theorem C17_exactly_one :
   forall n (f : nat -> bool),
@@ -330,6 +379,26 @@ Theorem C17_sat_poly_energy :
   forall cs (s : nat -> Z), energy (sat_poly cs) (fun v => z2q (s v)) = z2q (sat_energy cs s).
 Proof. exact sat_poly_energy. Qed.
 Print Assumptions C17_sat_poly_energy.
+
+(* from the literals TRANSLATED from satisfiability.py (Gen/Gen_Sat.v): a sign 2*b - 1 with b in 0..1 is +-1 *)
+Theorem C17_sat_sign_pm1 :
+  forall b, (sat_sign_low <= b <= sat_sign_high)%Z -> pm1 (sat_sign_scale * b - sat_sign_shift)%Z.
+Proof. exact sat_sign_pm1. Qed.
+Print Assumptions C17_sat_sign_pm1.
+
+Theorem C17_sat_shape_constants :
+  sat_term_size = 2%nat /\ sat_nae3_k = 3%nat /\ sat_2in4_k = 4%nat /\ sat_plant_bound = 1%Z.
+Proof. exact sat_shape_constants. Qed.
+Print Assumptions C17_sat_shape_constants.
+
+(* plant_solution: every clause keeps |sum of signs| <= the bound, so the all-(+1) assignment is a ground state *)
+Theorem C17_planted_ground_state :
+  forall cs (s : nat -> Z),
+    (forall c, In c cs -> Forall (fun t => pm1 (snd t)) c /\ (Z.abs (zsum (map snd c)) <= sat_plant_bound)%Z) ->
+    (forall v, pm1 (s v)) ->
+    (sat_energy cs (fun _ => 1%Z) <= sat_energy cs s)%Z.
+Proof. exact planted_ground_state. Qed.
+Print Assumptions C17_planted_ground_state.
 
 Example C17_ex_fulladder : fulladder_energy [true; true; false; false; true] = 0%Z /\
                            fulladder_energy [true; true; false; true; true] = 1%Z.
